@@ -602,6 +602,9 @@ pub fn contract_configs(thorough: bool) -> Vec<Cfg> {
             v.push(cfg);
         }
     }
+    // a configuration whose finish is refused (dimensions beyond the 16-bit sample-entry fields):
+    // the muxer must count as finished after that refusal like after a success
+    v.push(Cfg { width: 70_000, ..Cfg::basic(VCodec::H264, Some(ACodec::AacLc), true) });
     v
 }
 
@@ -727,6 +730,9 @@ pub fn collect(ctx: &Ctx, which: Which) -> (Tally, Meta) {
     if which == Which::C04 {
         builder_cases(&mut tally);
     }
+    if which == Which::C06 {
+        short_write_sinks(&mut tally);
+    }
     let desc = runs.iter().map(|(a, d)| format!("{} symbols to depth {d}", a.len())).collect::<Vec<_>>().join(" + ");
     let (rule, assumptions) = match which {
         Which::C04 => (
@@ -738,11 +744,62 @@ pub fn collect(ctx: &Ctx, which: Which) -> (Tally, Meta) {
             vec!["determinism of a single execution is C17's business and is self-checked there".to_string()],
         ),
         Which::C06 => (
-            format!("every history over a {}-symbol alphabet containing all five finish entry points ({desc}) x {} configurations, on a recording sink that stamps every write with the API call in progress: no sink write outside the first successful finish, everything after it fails, statistics equal accepted counts / sink bytes / largest presentation end time within one tick", C06_ALPHA.len(), cfgs.len()),
+            format!("every history over a {}-symbol alphabet containing all five finish entry points ({desc}) x {} configurations, on a recording sink that stamps every write with the API call in progress: no sink write outside the first successful finish, everything after it fails, statistics equal accepted counts / sink bytes / largest presentation end time within one tick; plus 14 representative histories x sinks accepting {{1, 5, 64, 4096}} bytes per write x the five finish entry points (complete file, exact byte count)", C06_ALPHA.len(), cfgs.len()),
             vec!["consuming finish calls are terminal symbols (the object no longer exists afterwards)".to_string()],
         ),
     };
     (tally, Meta { level: "model_checking", rule, bound: desc, exhaustive: true, assumptions, extra: json!({"configurations": cfgs.len()}) })
+}
+
+/// C06 on sinks that legally accept only part of each buffer: "a successful finish writes the
+/// complete file once" and "the exact number of bytes delivered to the sink" must hold for them
+/// too. Representative histories x chunk sizes {1, 5, 64, 4096} x the five finish entry points.
+fn short_write_sinks(t: &mut Tally) {
+    use crate::determinism::ChunkSink;
+    use std::sync::{Arc, Mutex};
+    let mut k = 0u64;
+    for (name, cfg, ops) in crate::faults::histories() {
+        let mut full = ops.clone();
+        full.push(Op::FinishInPlaceStats);
+        let reference = crate::run::run(&cfg, &full);
+        let Some(Res::OkStats(want)) = reference.results.last().cloned() else { continue };
+        for chunk in [1usize, 5, 64, 4096] {
+            for fin in [Op::FinishInPlaceStats, Op::FinishInPlace, Op::Finish, Op::FinishStats, Op::Flush] {
+                k += 1;
+                t.evaluations += 1;
+                let buf = Arc::new(Mutex::new(Vec::new()));
+                let mut m = crate::run::builder(&cfg, ChunkSink { buf: buf.clone(), chunk }).build().ok();
+                let mut written_before_finish = 0usize;
+                let mut results = vec![];
+                for o in &ops {
+                    results.push(crate::run::apply(&mut m, o));
+                    written_before_finish = buf.lock().unwrap().len();
+                }
+                let r = crate::run::apply(&mut m, &fin);
+                drop(m);
+                let got = buf.lock().unwrap().clone();
+                t.outcome(oracle::report::h64(&got) ^ chunk as u64);
+                let case = || json!({"engine": "contract-sinks", "history": name, "cfg": cfg, "ops": ops, "chunk": chunk, "finish": fin});
+                let order = (9_000_000, k);
+                if written_before_finish != 0 {
+                    t.violation("C06/short-write-sink/written-before-finish", order, || format!("{name}: {written_before_finish} bytes reached the sink before finish"), case);
+                }
+                if !r.is_ok() {
+                    t.violation("C06/short-write-sink/finish-failed", order, || format!("{name}: {} on a sink accepting {chunk} bytes per write: {}", fin.brief(), r.brief()), case);
+                    continue;
+                }
+                if got != reference.bytes {
+                    t.violation("C06/short-write-sink/incomplete-file", order, || format!("{name}: finish reported success on a sink accepting {chunk} bytes per write, the sink holds {} bytes, the complete file has {}", got.len(), reference.bytes.len()), case);
+                }
+                if let Res::OkStats(st) = &r {
+                    if st.bytes_written != got.len() as u64 || st.video_frames != want.video_frames || st.audio_frames != want.audio_frames {
+                        t.violation("C06/short-write-sink/stats", order, || format!("{name}: statistics {st:?}, the sink holds {} bytes, reference statistics {want:?}", got.len()), case);
+                    }
+                }
+            }
+        }
+    }
+    t.count("short_write_sink_runs", k);
 }
 
 pub fn check(ctx: &Ctx, which: Which) -> i32 {
